@@ -9,6 +9,8 @@ import (
 	"encoding/json"
 	"fmt"
 	"reflect"
+	"runtime/debug"
+	"strings"
 	"sort"
 
 	"github.com/enbility/spine-go/api"
@@ -54,6 +56,7 @@ type AbsState struct {
 	CSub   []CEntry            `json:"csub"`
 	CBind  []CEntry            `json:"cbind"`
 	Data   map[string]int      `json:"data"`
+	RData  map[string]int      `json:"rdata"`
 	Res    map[string]bool     `json:"res"`  // peer resolvable by SKI
 	ResA   map[string]bool     `json:"resa"` // peer resolvable by device address
 }
@@ -199,7 +202,7 @@ func (s *System) step(a Action) (line TraceLine) {
 	func() {
 		defer func() {
 			if r := recover(); r != nil {
-				line.Pan = fmt.Sprint(r)
+				line.Pan = fmt.Sprint(r) + " @ " + topFrames(debug.Stack())
 				line.Ret = "panic"
 			}
 		}()
@@ -302,6 +305,13 @@ func (s *System) exec(a Action, p *Peer, line *TraceLine) (injected uint64) {
 		cmd := model.CmdType{}
 		cmd.SetDataForFunction(fnMap[a.str("fn")], emptyData(a.str("fn")))
 		injected = s.inject(p, model.CmdClassifierTypeRead, s.remoteAddr(p, a.str("c")), s.localAddr(a.str("s")), ack, nil, cmd)
+	case "recv":
+		cmd := s.payloadCmd(a.str("pl"), a.num("v"), a.str("cls"))
+		var ref *uint64
+		if cls := a.str("cls"); cls == "reply" || cls == "result" {
+			ref = ptr(uint64(424242)) // well-formed replies/results carry a reference (here: to no request of ours)
+		}
+		injected = s.inject(p, model.CmdClassifierType(a.str("cls")), s.remoteAddr(p, a.str("c")), s.localAddr(a.str("s")), ack, ref, cmd)
 	case "setdata":
 		s.lfeat[a.str("s")].SetData(fnMap[a.str("fn")], mkData(a.str("fn"), a.num("v")))
 	case "lsub", "lbind", "lunsub", "lunbind":
@@ -349,14 +359,18 @@ func emptyData(fn string) any {
 
 func (s *System) project() *AbsState {
 	st := &AbsState{Conn: []string{}, Known: map[string][]string{}, Subs: []RegEntry{}, Binds: []RegEntry{}, SubIds: []uint64{}, BindIds: []uint64{},
-		CSub: []CEntry{}, CBind: []CEntry{}, Data: map[string]int{}, Res: map[string]bool{}, ResA: map[string]bool{}}
+		CSub: []CEntry{}, CBind: []CEntry{}, Data: map[string]int{}, RData: map[string]int{}, Res: map[string]bool{}, ResA: map[string]bool{}}
 	for _, pn := range s.topo.Peers {
 		p := s.peers[pn]
 		st.Known[pn] = []string{}
 		rd := s.dev.RemoteDeviceForSki(p.ski)
 		st.Res[pn] = rd != nil
 		st.ResA[pn] = s.dev.RemoteDeviceForAddress(model.AddressDeviceType(p.devAddr)) != nil
+		st.RData[pn] = 0
 		if rd != nil {
+			if rf := rd.FeatureByAddress(s.remoteAddr(p, "s14")); rf != nil && !isNilIface(rf) {
+				st.RData[pn] = dataVal(fnMap["limit"], rf.DataCopy(fnMap["limit"]))
+			}
 			st.Conn = append(st.Conn, pn)
 			for _, e := range rd.Entities() {
 				st.Known[pn] = append(st.Known[pn], entStr(e.Address().Entity))
@@ -417,10 +431,58 @@ func (s *System) project() *AbsState {
 		}
 		for fn := range s.topo.LFn[n] {
 			cell := n + "." + fn
-			if cell == "S1.limit" || cell == "S2.limit" || cell == "S3.kv" {
+			if cell == "S1.limit" || cell == "S2.limit" || cell == "S3.kv" || cell == "S4.limit" {
 				st.Data[cell] = dataVal(fnMap[fn], f.DataCopy(fnMap[fn]))
 			}
 		}
 	}
 	return st
+}
+
+// payloadCmd builds the command for an abstract payload kind of the recv action
+func (s *System) payloadCmd(pl string, v int, cls string) model.CmdType {
+	cmd := model.CmdType{}
+	switch pl {
+	case "res0":
+		cmd.ResultData = &model.ResultDataType{ErrorNumber: ptr(model.ErrorNumberType(0))}
+	case "res1":
+		cmd.ResultData = &model.ResultDataType{ErrorNumber: ptr(model.ErrorNumberType(1)), Description: ptr(model.DescriptionType("error"))}
+	case "resbad":
+		cmd.ResultData = &model.ResultDataType{Description: ptr(model.DescriptionType("no number"))}
+	case "usecase":
+		cmd.NodeManagementUseCaseData = &model.NodeManagementUseCaseDataType{}
+	case "subdata":
+		cmd.NodeManagementSubscriptionData = &model.NodeManagementSubscriptionDataType{}
+	case "binddata":
+		cmd.NodeManagementBindingData = &model.NodeManagementBindingDataType{}
+	case "destlist":
+		cmd.NodeManagementDestinationListData = &model.NodeManagementDestinationListDataType{}
+	case "discovery":
+		cmd.NodeManagementDetailedDiscoveryData = &model.NodeManagementDetailedDiscoveryDataType{}
+	default:
+		if cls == "read" {
+			cmd.SetDataForFunction(fnMap[pl], emptyData(pl))
+		} else {
+			cmd.SetDataForFunction(fnMap[pl], mkData(pl, v))
+		}
+	}
+	return cmd
+}
+
+// topFrames: the spine-go function frames of a panic stack (innermost first), without line numbers
+func topFrames(stack []byte) string {
+	var fr []string
+	for _, l := range strings.Split(string(stack), "\n") {
+		if strings.HasPrefix(l, "github.com/enbility/spine-go/") {
+			f := strings.TrimPrefix(l, "github.com/enbility/spine-go/")
+			if i := strings.LastIndex(f, "("); i > 0 {
+				f = f[:i]
+			}
+			fr = append(fr, f)
+			if len(fr) == 3 {
+				break
+			}
+		}
+	}
+	return strings.Join(fr, " < ")
 }
